@@ -1,0 +1,10 @@
+//go:build verif
+
+package webp
+
+import "github.com/deepteams/webp/internal/lossy"
+
+// VerifLossyTokenBufferRun: see lossy.VerifTokenBufferRun.
+func VerifLossyTokenBufferRun(mbW int, toks [][][2]uint8, skipped []bool, numParts int) [][]byte {
+	return lossy.VerifTokenBufferRun(mbW, toks, skipped, numParts)
+}
